@@ -661,6 +661,26 @@ impl<'p> IntoIterator for &'p RawOpaquePool {
     }
 }
 
+#[cfg(folo_verif)]
+impl RawOpaquePool {
+    /// Verification hook: read-only internal consistency probe.
+    #[doc(hidden)]
+    pub fn __verif_check(&self) -> Result<(), String> {
+        let mut total = 0_usize;
+        let mut has_vacancy = Vec::with_capacity(self.slabs.len());
+        for (index, slab) in self.slabs.iter().enumerate() {
+            slab.__verif_check()
+                .map_err(|e| format!("slab {index}: {e}"))?;
+            total = total.wrapping_add(slab.len());
+            has_vacancy.push(!slab.is_full());
+        }
+        if total != self.length {
+            return Err(format!("pool length {} but slabs hold {total}", self.length));
+        }
+        self.vacancy_tracker.__verif_check(&has_vacancy)
+    }
+}
+
 #[cfg(test)]
 #[allow(
     clippy::indexing_slicing,
